@@ -74,7 +74,7 @@ package store
 // ($EmptyComplete: the empty block's file was rewritten completely when the store was opened - NewStore
 // fails otherwise; the empty block is never written by put, only linked.)
 //@ func (*Store).linkHeight
-//@   property C07
+//@   property C07 C15
 //@   requires s != nil && ($Complete || (datahash.IsEmptyEDS() && $EmptyComplete))
 //@   effect $Linked := err == nil
 
@@ -95,7 +95,7 @@ package store
 //@   ensures err != nil ==> $RmErr || $CreateErr
 
 //@ func (*Store).createODSQ4File
-//@   property C07
+//@   property C07 C15
 //@   noframe
 //@   havoc $Complete $CacheDropped $LinkGone $FdOpen $RmErr $CreateErr $Linked $ValidOK
 //@   requires s != nil && !$Complete && !$FdOpen
@@ -104,7 +104,7 @@ package store
 //@   ensures result0 ==> err == nil
 
 //@ func (*Store).createODSFile
-//@   property C07
+//@   property C07 C15
 //@   noframe
 //@   havoc $Complete $CacheDropped $LinkGone $FdOpen $RmErr $CreateErr $Linked $ValidOK
 //@   requires s != nil && !$Complete && !$FdOpen
